@@ -6,6 +6,13 @@ VERIF = os.path.dirname(os.path.dirname(os.path.abspath(__file__)))
 
 # id -> (category, technique, text, note)
 CLAIMS = {
+    'C03': ('other',
+            'static analysis: constant evaluation of printer tables and parser lexicons (register names, size keywords), injectivity analysis of the SSE suffix scheme, inverse-table comparison of mirrored special cases',
+            'Decides necessary conditions of the round trip that are visible in tables: every register name and size keyword the printers can emit is in the corresponding '
+            'parser\'s lexicon with the same size; exactly one suffix key per SSE row name, (row, prefix) -> printed mnemonic injective up to the collisions the assembler '
+            'special-cases, mnemo_mmx_hash maps every printed name to a row that prints it; the fence/movhlps/implicit-operand special cases are inverse in both directions.',
+            'Not decided: equality of bytes after a concrete trip, the txt operand-order memo, candidate-set membership. Known findings: cr0-7/dr0-7 are printed but parsed as symbols '
+            '(enabling them exposes a second defect in asm_candidates, so not repaired).'),
     'C09': ('other',
             'static analysis: partial evaluation of the table-driven AT&T mnemonic functions (mnemo_to_att / mnemo_from_att) over every printed mnemonic x operand-size form derived from the opcode table',
             'Decides that every mnemonic/operand-size form the decoder can produce reaches a return of mnemo_to_att (exhaustiveness of the five AT&T tables and of the size '
